@@ -503,54 +503,91 @@ def normSqr (x : Tensor α) : Except PyErr (Tensor α) := do
 
 end ring
 
-/-! ### division, modulus, sigmoid (cplx.py:265-295, 319-389) -/
+/-! ### division, modulus, sigmoid (cplx.py:268-301, 326-408)
+
+The formulas are those of the code AFTER the proposed repairs F17 (`proposed/F17_*.diff`): the modulus is `torch.hypot`,
+quotients scale the divisor by its larger component before `|·|²` is formed, `norm` scales by the largest component, the
+sigmoid forms `e^{-z}` in the right half plane and `e^{z}` in the left one.  Over ℝ these are the same numbers as the
+textbook formulas (theorems `C15_absolute_value`, `C15_inverse`, …); over `Float` no intermediate leaves the finite range
+when the result is representable, which the pre-repair formulas (`|z|²` formed explicitly, `e^z/(1+e^z)`) do for moduli
+beyond 1e±154 resp. `Re z > 709.78`. -/
 section field
-variable {α : Type} [Add α] [Mul α] [Neg α] [Sub α] [Div α] [Zero α] [One α] [Transc α]
+variable {α : Type} [Add α] [Mul α] [Neg α] [Sub α] [Div α] [Zero α] [One α] [Transc α] [LT α] [DecidableLT α]
 
-/-- `absolute_value(x) = real(elementwise_mult(x, conj(x))).sqrt_()` (cplx.py:285-295) -/
+/-- `hypot(a, b)` (C99 / `torch.hypot`): `sqrt(a² + b²)` computed without forming `a²` or `b²` at full scale:
+`m * sqrt((a/m)² + (b/m)²)` with `m = max |a| |b|`; `hypot(0, 0) = 0` -/
+def hypot (a b : α) : α :=
+  let m := Transc.max (Transc.abs a) (Transc.abs b)
+  if 0 < m then m * Transc.sqrt ((a / m) * (a / m) + (b / m) * (b / m)) else m
+
+/-- `absolute_value(x) = torch.hypot(real(x), imag(x))` (cplx.py:292-301, after F17_abs) -/
 def absoluteValue (x : Tensor α) : Except PyErr (Tensor α) := do
-  let xs ← conj x
-  let p ← elementwiseMult x xs
-  let r ← real p
-  pure (r.map Transc.sqrt)
+  let xr ← real x
+  let xi ← imag x
+  pure (xr.zip hypot xi)
 
-/-- `elementwise_division(x, y)` (cplx.py:265-282): `x·conj(y)` divided (broadcast `div_`) by
-`absolute_value(y).pow_(2)` -/
+/-- `torch.max(real(z).abs(), imag(z).abs())`: the larger component of every entry (cplx.py:283, 375) -/
+def cscale (z : Tensor α) : Except PyErr (Tensor α) := do
+  let zr ← real z
+  let zi ← imag z
+  pure (zr.zip (fun a b => Transc.max (Transc.abs a) (Transc.abs b)) zi)
+
+/-- `elementwise_division(x, y)` (cplx.py:268-289, after F17_division): with `scale` the larger component of `y`,
+`(x/scale)·conj(y/scale)` divided (broadcast `div_`) by `absolute_value(y/scale).pow_(2)` -/
 def elementwiseDivision (x y : Tensor α) : Except PyErr (Tensor α) :=
   if x.shape ≠ y.shape then .error .ValueError
   else do
-    let ys ← conj y
-    let ab ← absoluteValue y
+    let sc ← cscale y
+    let y' ← bop (fun a b => a / b) y sc
+    let ys ← conj y'
+    let ab ← absoluteValue y'
     let sq := ab.map (fun v => v * v)
-    let p ← elementwiseMult x ys
+    let x' ← bop (fun a b => a / b) x sc
+    let p ← elementwiseMult x' ys
     bop (fun a b => a / b) p sq
 
-/-- `inverse(z) = conj(z) / real(scalar_mult(z, conj(z)))` (cplx.py:354-366) -/
+/-- `inverse(z)` (cplx.py:360-380, after F17_division): with `scale` the larger component of `z` and `w = z/scale`,
+`conj(w) / real(scalar_mult(w, conj(w))) / scale` -/
 def inverse (z : Tensor α) : Except PyErr (Tensor α) := do
-  let zs ← conj z
-  let p ← scalarMult z zs
+  let sc ← cscale z
+  let z' ← bop (fun a b => a / b) z sc
+  let zs ← conj z'
+  let p ← scalarMult z' zs
   let den ← real p
-  bop (fun a b => a / b) zs den
+  let q ← bop (fun a b => a / b) zs den
+  bop (fun a b => a / b) q sc
 
-/-- `scalar_divide(x, y) = scalar_mult(x, inverse(y))` (cplx.py:338-351) -/
+/-- `scalar_divide(x, y) = scalar_mult(x, inverse(y))` (cplx.py:344-357) -/
 def scalarDivide (x y : Tensor α) : Except PyErr (Tensor α) := do
   let iy ← inverse y
   scalarMult x iy
 
-/-- `norm(x) = norm_sqr(x).sqrt_()` (cplx.py:381-390) -/
+/-- `x.abs().max()` of a non-empty tensor -/
+def maxAbs (l : List α) : α := l.foldl (fun acc v => Transc.max acc (Transc.abs v)) 0
+
+/-- `norm(x)` (cplx.py:394-408, after F17_norm): `scale = x.abs().max()` (1 for the zero tensor),
+`norm_sqr(x / scale).sqrt_().mul_(scale)` -/
 def norm (x : Tensor α) : Except PyErr (Tensor α) := do
-  let n ← normSqr x
-  pure (n.map Transc.sqrt)
+  let m := maxAbs x.data
+  let sc := if 0 < m then m else 1
+  let n ← normSqr (x.map (fun v => v / sc))
+  pure (n.map (fun v => Transc.sqrt v * sc))
 
 /-- numpy's `exp(x + iy)` -/
 def expC (z : C α) : C α := (Transc.exp z.1 * Transc.cos z.2, Transc.exp z.1 * Transc.sin z.2)
 
-/-- `np.exp(z) / (1 + np.exp(z))` on one complex number -/
+/-- the logistic function on one complex number as coded after F17_sigmoid (cplx.py:338-342):
+`right = Re z > 0`, `ez = exp(-z)` if `right` else `exp(z)`, result `(1 if right else ez) / (1 + ez)`
+(complex quotient `C.div`) -/
 def sigC (z : C α) : C α :=
-  let e := expC z
-  C.div e (1 + e.1, e.2)
+  if 0 < z.1 then
+    let e := expC (C.neg z)
+    C.div C.one (1 + e.1, e.2)
+  else
+    let e := expC z
+    C.div e (1 + e.1, e.2)
 
-/-- `sigmoid(x, y)` (cplx.py:320-335) of two REAL tensors: numpy broadcasting of `x + 1j*y`
+/-- `sigmoid(x, y)` (cplx.py:326-346) of two REAL tensors: numpy broadcasting of `x + 1j*y`
 (`ValueError` when they do not broadcast), then `[real(out), imag(out)]` -/
 def sigmoid (x y : Tensor α) : Except PyErr (Tensor α) :=
   match broadcastShape x.shape y.shape with
